@@ -294,7 +294,13 @@ template <size_t N, typename P> static void run_read(const Script& s, Log& log, 
       bool stuck = false;
       try
       {
-         rb->get(dest, o.n);
+         // get() is a template over the destination type, the length is in bytes: every third request hands over a wider pointer
+         switch ((i + o.n) % 3)
+         {
+         case 0: rb->get(dest, o.n); break;
+         case 1: rb->get(reinterpret_cast<uint16_t*>(dest), o.n); fs.add("read.get_wide_destination_type"); break;
+         default: rb->get(reinterpret_cast<uint32_t*>(dest), o.n); fs.add("read.get_wide_destination_type"); break;
+         }
          Event& e = log.add(EV_GET_RET, i, o.n);
          (void)e;
          if (dest) for (uint32_t j = 0; j < o.n; ++j) log.bytes.push_back(dest[j]);
